@@ -15,6 +15,7 @@ import (
 	"fmt"
 	"go/constant"
 	"os"
+	"path/filepath"
 	"go/token"
 	"go/types"
 	"sort"
@@ -1482,21 +1483,122 @@ func (in *Interp) applyValue(st *State, callee AV, args []AV, ins *ssa.Call, k k
 
 // foldPure evaluates a few pure library functions on constant arguments.
 func foldPure(fn *ssa.Function, args []AV) (AV, bool) {
-	if fn.Object() == nil || fn.Object().Pkg() == nil || fn.Object().Pkg().Path() != "strings" || len(args) != 2 {
+	if fn.Object() == nil || fn.Object().Pkg() == nil {
 		return nil, false
 	}
-	a, ok1 := asString(args[0])
-	b, ok2 := asString(args[1])
-	if !ok1 || !ok2 {
-		return nil, false
+	pkg := fn.Object().Pkg().Path()
+	strs := func() ([]string, bool) {
+		var out []string
+		for _, a := range args {
+			s, ok := asString(a)
+			if !ok {
+				return nil, false
+			}
+			out = append(out, s)
+		}
+		return out, true
 	}
-	switch fn.Name() {
-	case "HasPrefix":
-		return mkBool(strings.HasPrefix(a, b)), true
-	case "HasSuffix":
-		return mkBool(strings.HasSuffix(a, b)), true
-	case "Contains":
-		return mkBool(strings.Contains(a, b)), true
+	switch pkg {
+	case "strings":
+		switch fn.Name() {
+		case "HasPrefix", "HasSuffix", "Contains", "TrimSuffix", "TrimPrefix":
+			a, ok := strs()
+			if !ok || len(a) != 2 {
+				return nil, false
+			}
+			switch fn.Name() {
+			case "HasPrefix":
+				return mkBool(strings.HasPrefix(a[0], a[1])), true
+			case "HasSuffix":
+				return mkBool(strings.HasSuffix(a[0], a[1])), true
+			case "Contains":
+				return mkBool(strings.Contains(a[0], a[1])), true
+			case "TrimSuffix":
+				return mkString(strings.TrimSuffix(a[0], a[1])), true
+			case "TrimPrefix":
+				return mkString(strings.TrimPrefix(a[0], a[1])), true
+			}
+		case "ReplaceAll":
+			a, ok := strs()
+			if !ok || len(a) != 3 {
+				return nil, false
+			}
+			return mkString(strings.ReplaceAll(a[0], a[1], a[2])), true
+		case "Replace":
+			if len(args) == 4 {
+				a, ok := func() ([]string, bool) {
+					var out []string
+					for _, x := range args[:3] {
+						s, ok := asString(x)
+						if !ok {
+							return nil, false
+						}
+						out = append(out, s)
+					}
+					return out, true
+				}()
+				n, okn := asInt(args[3])
+				if ok && okn {
+					return mkString(strings.Replace(a[0], a[1], a[2], int(n))), true
+				}
+			}
+		}
+	case "path/filepath", "path":
+		if fn.Name() == "Join" && len(args) == 1 {
+			if sv, ok := args[0].(SliceV); ok {
+				var parts []string
+				for _, e := range sv.Elems {
+					s, ok := asString(e)
+					if !ok {
+						return nil, false
+					}
+					parts = append(parts, s)
+				}
+				return mkString(filepath.Join(parts...)), true
+			}
+			return nil, false
+		}
+		a, ok := strs()
+		if !ok {
+			return nil, false
+		}
+		switch fn.Name() {
+		case "Base":
+			if len(a) == 1 {
+				return mkString(filepath.Base(a[0])), true
+			}
+		case "Dir":
+			if len(a) == 1 {
+				return mkString(filepath.Dir(a[0])), true
+			}
+		case "Ext":
+			if len(a) == 1 {
+				return mkString(filepath.Ext(a[0])), true
+			}
+		}
+	case "fmt":
+		if fn.Name() == "Sprintf" && len(args) == 2 {
+			format, ok := asString(args[0])
+			sv, ok2 := args[1].(SliceV)
+			if !ok || !ok2 {
+				return nil, false
+			}
+			var vals []any
+			for _, e := range sv.Elems {
+				if d, isD := e.(Dyn); isD {
+					e = d.V
+				}
+				s, ok := asString(e)
+				if !ok {
+					return nil, false
+				}
+				vals = append(vals, s)
+			}
+			if strings.Count(format, "%s") != len(vals) || strings.Count(format, "%") != len(vals) {
+				return nil, false
+			}
+			return mkString(fmt.Sprintf(format, vals...)), true
+		}
 	}
 	return nil, false
 }
